@@ -133,8 +133,10 @@ inductive Expr
   | set (xs : List Expr)
   /-- `ast.Dict(keys, values)`; a `None` key (`**mapping`) is `Expr.absent` -/
   | dict (keys vals : List Expr)
-  /-- `ast.Call(func, args, keywords)`; keyword `i` is `(kwNames[i], kwVals[i])`, name `none` = `**` -/
-  | call (f : Expr) (args : List Expr) (kwNames : List (Option (List Char))) (kwVals : List Expr)
+  /-- `ast.Call(func, args, keywords)`; `keywords` are `keyword` nodes -/
+  | call (f : Expr) (args : List Expr) (keywords : List Expr)
+  /-- `ast.keyword(arg, value)`; `arg = none` is `**value` -/
+  | keyword (arg : Option (List Char)) (value : Expr)
   | subscript (v : Expr) (slice : Expr)
   | starred (x : Expr)
   /-- delegated to astor, inside the modelled fragment -/
@@ -511,14 +513,6 @@ def dictItems : List Expr → List Prog → List Prog → List Prog → List Pro
      | _ => Prog.seq [kp, Prog.out [':', ' '] .plain, vc]) :: dictItems ks kps vcs vhs
   | _, _, _, _ => []
 
-/-- the `ast.keyword` branch of `_colorize_ast` for each keyword -/
-def kwItems : List (Option (List Char)) → List Prog → List Prog
-  | n :: ns, v :: vs =>
-    (match n with
-     | some a => Prog.seq [Prog.out a .plain, Prog.out ['='] .plain, v]
-     | none => Prog.seq [Prog.out ['*', '*'] .plain, v]) :: kwItems ns vs
-  | _, _ => []
-
 mutual
 /-- `_colorize(pyval, state)` for an AST node whose `_OperatorDelimiter` parent precedence is `pp` -/
 def compile (T : PrecTable) (pp : Option Nat) : Expr → Prog
@@ -557,14 +551,17 @@ def compile (T : PrecTable) (pp : Option Nat) : Expr → Prog
   | .subscript v s =>
     .seq [compile T (some T.highest) v, .out ['['] .plain, .wbr, compile T (some T.highest) s,
           .out [']'] .plain]
-  | .call f args kwn kwv =>
+  | .call f args kws =>
     .seq [compile T (some T.highest) f, .out ['('] .plain,
           .group ([Prog.multiline (iterProg none none (compileList T (some T.highest) args))] ++
-                  (if kwn.isEmpty then [] else
+                  (if kws.isEmpty then [] else
                     (if args.isEmpty then [] else [Prog.comma]) ++
-                    [Prog.multiline (iterProg none none
-                        (kwItems kwn (compileList T (some T.highest) kwv)))])),
+                    [Prog.multiline (iterProg none none (compileList T (some T.highest) kws))])),
           .out [')'] .plain]
+  -- the `ast.keyword` branch of `_colorize_ast`
+  | .keyword (some a) v =>
+    .seq [.out a .plain, .out ['='] .plain, compile T (some T.highest) v]
+  | .keyword none v => .seq [.out ['*', '*'] .plain, compile T (some T.highest) v]
   | .starred x => .seq [.out ['*'] .plain, compile T (some T.highest) x]
   | .astor a =>
     match renderA T T.highest a with
@@ -729,7 +726,10 @@ inductive Doc
   | setCall (ds : List Doc)
   /-- `{ k: v, **v }`; key `absent` = `**` -/
   | dict (ks vs : List Doc)
-  | call (f : Doc) (args : List Doc) (kwn : List (Option (List Char))) (kwv : List Doc)
+  /-- `f(a, *b, k=v, **m)`: positional arguments, then `keyword` items -/
+  | call (f : Doc) (args : List Doc)
+  /-- `k=v` / `**v` inside a call -/
+  | keyword (arg : Option (List Char)) (v : Doc)
   | subscript (v idx : Doc)
   | starred (d : Doc)
   | absent
@@ -758,13 +758,6 @@ def dictTexts : List Doc → List (List Char) → List (List Char) → List (Lis
      | _ => kt ++ [':', ' '] ++ vt) :: dictTexts ks kts vts
   | _, _, _ => []
 
-def kwTexts : List (Option (List Char)) → List (List Char) → List (List Char)
-  | n :: ns, vt :: vts =>
-    (match n with
-     | some a => a ++ ['='] ++ vt
-     | none => ['*', '*'] ++ vt) :: kwTexts ns vts
-  | _, _ => []
-
 mutual
 def Doc.flatten : Doc → List Char
   | .atom s => s
@@ -781,9 +774,9 @@ def Doc.flatten : Doc → List Char
   | .setCall ds => "set([".toList ++ joinSep [',', ' '] (Doc.flattenList ds) ++ "])".toList
   | .dict ks vs =>
     '{' :: (joinSep [',', ' '] (dictTexts ks (Doc.flattenList ks) (Doc.flattenList vs)) ++ ['}'])
-  | .call f args kwn kwv =>
-    f.flatten ++ ['('] ++
-      joinSep [',', ' '] (Doc.flattenList args ++ kwTexts kwn (Doc.flattenList kwv)) ++ [')']
+  | .call f args => f.flatten ++ ['('] ++ joinSep [',', ' '] (Doc.flattenList args) ++ [')']
+  | .keyword (some a) v => a ++ ['='] ++ v.flatten
+  | .keyword none v => ['*', '*'] ++ v.flatten
   | .subscript v idx => v.flatten ++ ['['] ++ idx.flatten ++ [']']
   | .starred d => '*' :: d.flatten
   | .absent => "None".toList
@@ -792,6 +785,15 @@ def Doc.flattenList : List Doc → List (List Char)
   | [] => []
   | d :: ds => d.flatten :: Doc.flattenList ds
 end
+
+def Doc.isKeyword : Doc → Bool
+  | .keyword _ _ => true
+  | _ => false
+
+/-- positional arguments (starred or not) come before keyword items (`k=v`, `**v`) -/
+def argsOrdered : List Doc → Bool
+  | [] => true
+  | d :: ds => if d.isKeyword then ds.all Doc.isKeyword else argsOrdered ds
 
 def sequence {α} : List (Option α) → Option (List α)
   | [] => some []
@@ -850,12 +852,13 @@ def parseDoc (n : Nat) : Doc → Option Doc
       | some ks', some vs' => some (.dict ks' vs')
       | _, _ => none
     else none
-  | .call f args kwn kwv =>
-    if kwn.length = kwv.length then
-      match parseDoc 15 f, sequence (parseArgEach args), sequence (parseEach 1 kwv) with
-      | some f', some args', some kwv' => some (.call f' args' kwn kwv')
-      | _, _, _ => none
+  | .call f args =>
+    if argsOrdered args then
+      match parseDoc 15 f, sequence (parseArgEach args) with
+      | some f', some args' => some (.call f' args')
+      | _, _ => none
     else none
+  | .keyword _ _ => none
   | .subscript _ (.bare []) => none
   | .subscript v (.bare [.starred x]) =>
     match parseDoc 15 v, parseDoc 1 x with
@@ -866,9 +869,11 @@ def parseDoc (n : Nat) : Doc → Option Doc
     | some v', some d' => some (.subscript v' d')
     | _, _ => none
   | .subscript v (.bare ds) =>
-    match parseDoc 15 v, sequence (parseArgEach ds) with
-    | some v', some ds' => some (.subscript v' (.tuple ds' false))
-    | _, _ => none
+    if ds.all (!·.isKeyword) then
+      match parseDoc 15 v, sequence (parseArgEach ds) with
+      | some v', some ds' => some (.subscript v' (.tuple ds' false))
+      | _, _ => none
+    else none
   | .subscript v (.starred x) =>
     match parseDoc 15 v, parseDoc 1 x with
     | some v', some x' => some (.subscript v' (.tuple [.starred x'] false))
@@ -881,10 +886,11 @@ def parseDoc (n : Nat) : Doc → Option Doc
 def parseEach (n : Nat) : List Doc → List (Option Doc)
   | [] => []
   | d :: ds => parseDoc n d :: parseEach n ds
-/-- call arguments / index lists: `'*' expression` or an expression -/
+/-- call arguments / index lists: `'*' expression`, `k=expression`, `'**' expression` or an expression -/
 def parseArgEach : List Doc → List (Option Doc)
   | [] => []
   | .starred x :: ds => (parseDoc 1 x).map Doc.starred :: parseArgEach ds
+  | .keyword a v :: ds => (parseDoc 1 v).map (Doc.keyword a) :: parseArgEach ds
   | d :: ds => parseDoc 1 d :: parseArgEach ds
 def parseKeyEach : List Doc → List (Option Doc)
   | [] => []
